@@ -40,7 +40,9 @@ class Call(Expression):
         out += (STATUS, RESULT, POS) << Yield((CALL, func, POS))
 
 
-class KeywordArg:
+class KeywordArg(Expression):
+    # A keyword argument is never compiled itself, but it is an Expression so
+    # that the expression visitors reach the argument it holds.
     def __init__(self, name, expr):
         self.name = name
         self.expr = expr
